@@ -87,7 +87,7 @@ func capture(root string) snap {
 		if rel == "." {
 			return nil
 		}
-		info, e := os.Lstat(p)
+		info, e := d.Info()
 		if e != nil {
 			return nil
 		}
@@ -119,8 +119,10 @@ func capture(root string) snap {
 }
 
 func restore(s snap, root string) {
-	exec_chmod(root)
-	os.RemoveAll(root)
+	if err := os.RemoveAll(root); err != nil {
+		exec_chmod(root)
+		os.RemoveAll(root)
+	}
 	if err := os.MkdirAll(root, 0755); err != nil {
 		panic(vx.ToolError{Msg: "restore: " + err.Error()})
 	}
